@@ -403,6 +403,52 @@ class Context:
     def class_var_get(self, I, info, name):
         return I.st.heap.get(('classvar', info.name, name))
 
+    def mutable_class_attrs(self):
+        """names of class-level attributes that some function of the repository assigns (Class.x = ..., cls.x = ..., self.__class__.x = ...):
+        global mutable state - their value at function entry is arbitrary, not the initial value written in the class body"""
+        if getattr(self, '_mut_class_attrs', None) is None:
+            names = set()
+            for root, _, files in os.walk(os.path.join(self.repo.root, 'yowsup')):
+                for f in files:
+                    if not f.endswith('.py') or f.startswith('test_'):
+                        continue
+                    try:
+                        tree = ast.parse(open(os.path.join(root, f), encoding='utf-8').read())
+                    except Exception:
+                        continue
+                    for cls in [n for n in ast.walk(tree) if isinstance(n, ast.ClassDef)]:
+                        for n in ast.walk(cls):
+                            tg = n.targets if isinstance(n, ast.Assign) else [n.target] if isinstance(n, (ast.AugAssign, ast.AnnAssign)) else []
+                            for x in tg:
+                                if not isinstance(x, ast.Attribute):
+                                    continue
+                                b = x.value
+                                if (isinstance(b, ast.Name) and b.id != 'self' and (b.id[:1].isupper() or b.id == 'cls')) or \
+                                        (isinstance(b, ast.Attribute) and b.attr == '__class__') or \
+                                        (isinstance(b, ast.Call) and isinstance(b.func, ast.Name) and b.func.id == 'type'):
+                                    a = x.attr
+                                    names.add(a)
+                                    if a.startswith('__') and not a.endswith('__'):
+                                        names.add('_%s%s' % (cls.name.lstrip('_'), a))
+            self._mut_class_attrs = names
+        return self._mut_class_attrs
+
+    def class_attr_entry_value(self, I, info, name, v0):
+        """arbitrary value of a mutable class attribute at first read on a path (then stable until written)"""
+        if isinstance(v0, VNone):
+            t = I.fresh('classattr_' + name, T.Obj)
+            v = VOpt(I.fresh_bool('classattr_none_' + name), VOpaque(t, 'classattr'))
+        elif isinstance(v0, VInt):
+            v = VInt(I.fresh_int('classattr_' + name))
+        elif isinstance(v0, VBool):
+            v = VBool(I.fresh_bool('classattr_' + name))
+        elif isinstance(v0, VSeq):
+            v = v0.with_term(I.fresh('classattr_' + name, v0.th.sort))
+        else:
+            return v0
+        I.st.heap[('classvar', info.name, name)] = v
+        return v
+
     def class_var_set(self, I, info, name, val):
         I.st.heap[('classvar', info.name, name)] = val
 
